@@ -188,8 +188,12 @@ pub fn run_session(bin: &PathBuf, mode: &Mode, roots: &[History], seed: u64, sid
             }
         }
     }
-    if s.stderr_has_panic().is_some() {
+    if let Some(err) = s.stderr_has_panic() {
         acc.count("sessions_with_panic_on_stderr_handed_to_C07", 1);
+        let first = err.lines().filter(|l| l.contains("panicked") || l.contains("called `") || l.contains("index out") || l.contains("overflow")).take(3).collect::<Vec<_>>().join(" | ");
+        if acc.samples.len() < 4 {
+            acc.samples.push(json!({"panic_on_stderr": first, "mode": mode.name, "failpoints": mode.failpoints, "last_commands": s.eng.transcript.iter().filter(|e| e.dir == crate::bb::Dir::Sent).rev().take(4).map(|e| truncate(&e.line, 200)).collect::<Vec<_>>()}));
+        }
     }
     acc.count("go_commands", go_count);
     // event-log checker -------------------------------------------------------------------------
